@@ -388,8 +388,15 @@ func TestC13Conc(t *testing.T) {
 		np := rapid.IntRange(3, 10).Draw(t, "nParsers")
 		kinds := map[string]bool{}
 		matches := 0
+		// one kind gets at least three instances whose histories fill, parse
+		// and shrink a lot: shared state of a kind shows only when two of its
+		// instances are in the same code at the same time
+		focus := rapid.SampledFrom(Kinds).Draw(t, "focusKind")
 		for i := 0; i < np; i++ {
 			kind := rapid.SampledFrom(Kinds).Draw(t, "kind")
+			if i < 3 {
+				kind = focus
+			}
 			// equal configurations in several goroutines have mass: shared
 			// state would most likely be keyed by configuration
 			var cfg PCfg
@@ -403,7 +410,11 @@ func TestC13Conc(t *testing.T) {
 			if err != nil {
 				continue
 			}
-			genParserHistory(t, x, c13Opts())
+			o := c13Opts()
+			if i < 3 {
+				o.fill, o.drain, o.shrink, o.tinyPct = 12, 10, 12, 0
+			}
+			genParserHistory(t, x, o)
 			if x.dead {
 				continue
 			}
